@@ -138,6 +138,64 @@ theorem C01_postfilter_counterexample :
     (fun x hx => by cases hx)
     (fun x hx => by simp at hx; subst hx; exact recSide_pass none ["post0"])
 
+/-- **C01_filters_follow_registration.**  The registration state a call sees is the fold of the
+    registration calls made before it (`Reg.after`, mirroring the `register…` / `Use…Middleware`
+    methods of tars/filter.go: pre, post and middleware registrations append, the legacy single
+    slot is replaced), for EVERY history `ops` starting from the empty registration: the lists are
+    the registered filters in registration order, the single slot holds the last one registered.
+    And the chain a call goes through when no single filter is registered and at least one
+    middleware is, is the composition of exactly the middlewares registered so far, first
+    registered outermost (`chainOf`) — on the client (`runClient`) and on the server
+    (`runServer`, both variants).  In particular a middleware registered after earlier calls is
+    part of the chain of the next call (second statement: the history extended by one
+    `useMw [m]`).  The code corresponds to `getMiddlewareFilter` being a function of the list only
+    because the getters keep no state: `C01_middleware_getters_stateless`. -/
+theorem C01_filters_follow_registration {ε σ α : Type} (v : Variant) (nil : α)
+    (ops : List (RegOp ε σ α)) (call : Comp ε σ α) :
+    let reg : Reg ε σ α := Reg.after {} ops
+    (reg.mws = ops.flatMap RegOp.mwsOf ∧ reg.pre = ops.flatMap RegOp.preOf ∧
+      reg.post = ops.flatMap RegOp.postOf ∧ reg.single = (ops.flatMap RegOp.singleOf).getLast?) ∧
+    (reg.single = none → ops.flatMap RegOp.mwsOf ≠ [] →
+      runClient nil reg call = chainOf (ops.flatMap RegOp.mwsOf) call ∧
+      runServer v nil reg call = chainOf (ops.flatMap RegOp.mwsOf) call) ∧
+    (∀ m : Mw ε σ α, (Reg.after {} (ops ++ [.useMw [m]])).single = none →
+      runClient nil (Reg.after {} (ops ++ [.useMw [m]])) call
+        = chainOf (ops.flatMap RegOp.mwsOf ++ [m]) call ∧
+      runServer v nil (Reg.after {} (ops ++ [.useMw [m]])) call
+        = chainOf (ops.flatMap RegOp.mwsOf ++ [m]) call) := by
+  intro reg
+  have hf := after_fields ops ({} : Reg ε σ α)
+  have h1 : reg.mws = ops.flatMap RegOp.mwsOf := by simpa using hf.1
+  refine ⟨⟨h1, by simpa using hf.2.1, by simpa using hf.2.2.1, by simpa using hf.2.2.2⟩, ?_, ?_⟩
+  · intro hs hm
+    have hm' : reg.mws ≠ [] := by rw [h1]; exact hm
+    exact ⟨by rw [runClient_chain nil reg call hs hm', h1], by rw [runServer_chain v nil reg call hs hm', h1]⟩
+  · intro m hs
+    have hf2 := after_fields (ops ++ [.useMw [m]]) ({} : Reg ε σ α)
+    have h2 : (Reg.after {} (ops ++ [RegOp.useMw [m]]) : Reg ε σ α).mws = ops.flatMap RegOp.mwsOf ++ [m] := by
+      simpa [RegOp.mwsOf] using hf2.1
+    have hm' : (Reg.after {} (ops ++ [RegOp.useMw [m]]) : Reg ε σ α).mws ≠ [] := by rw [h2]; simp
+    exact ⟨by rw [runClient_chain nil _ call hs hm', h2], by rw [runServer_chain v nil _ call hs hm', h2]⟩
+
+/-- three recording middlewares registered one after the other with calls in between: the call
+    after the k-th registration is seen by exactly the first k, first registered outermost -/
+example :
+    let A : Mw String Unit Nat := recMw ["A.before"] ["A.after"]
+    let B : Mw String Unit Nat := recMw ["B.before"] ["B.after"]
+    let C : Mw String Unit Nat := recMw ["C.before"] ["C.after"]
+    let call : Comp String Unit Nat := fun s => (["call"], 0, s)
+    (runClient 0 (Reg.after {} [.useMw [A]]) call ()).1 = ["A.before", "call", "A.after"] ∧
+    (runClient 0 (Reg.after {} [.useMw [A], .useMw [B]]) call ()).1
+      = ["A.before", "B.before", "call", "B.after", "A.after"] ∧
+    (runServer .repaired 0 (Reg.after {} [.pre (recSide 0 ["p"]), .useMw [A], .useMw [B], .useMw [C]]) call ()).1
+      = ["A.before", "B.before", "C.before", "call", "C.after", "B.after", "A.after"] := by decide
+
+/-- the middleware getters of tars/filter.go compose the chain from the registered list on every
+    call and keep no state of their own (no `sync.Once`, no cached chain member, nothing but the
+    eight registration members in `filters`; regenerated constant of the go/ast extractor,
+    extract/c01.go).  Fails to build when a cache is introduced. -/
+theorem C01_middleware_getters_stateless : cpMwGetterStateless = 1 := by decide
+
 /-- the recording filters the harness registers (`recReg`, used by the driver's `cfilters` /
     `sfilters`) are pass-through registrations; so the theorems above apply to them: the trace is
     `single.before call single.after`, or `mw0.before … call … mw0.after`, or
